@@ -344,9 +344,13 @@ def extract_report(stdout: str) -> str:
 
 
 def run_pytest(directory: Path, args=(), *, env=None, stdin=b"", hashseed="0", timeout=120,
-               plugins_off=True) -> PytestResult:
-    for pc in directory.rglob("__pycache__"):
-        shutil.rmtree(pc, ignore_errors=True)
+               plugins_off=True, bytecode=False) -> PytestResult:
+    """bytecode=True: like an ordinary user - python and pytest keep their bytecode caches between sessions"""
+    if bytecode:
+        env = dict(env or {}, PYTHONDONTWRITEBYTECODE="")
+    else:
+        for pc in directory.rglob("__pycache__"):
+            shutil.rmtree(pc, ignore_errors=True)
     junit = directory / ".vf-junit.xml"
     if junit.exists():
         junit.unlink()
